@@ -58,7 +58,10 @@ def reqOp (cv sv : Nat) (authOk : Bool) (b : Block) (body : Bytes) (trailers : B
         if !validateRequest r false then "reject"
         else if sv = 1 then
           "h1 " ++ showBytes (assembleRequestHead r.method r.path sHttp11 (toH1Fields r body) ++ body)
-        else "h2 " ++ showBlock (formatH2Request r true) ++ " " ++ showBytes body ++ " " ++ showBlock (normalizeH2 trailers)
+        else
+          -- transparent mode: HttpStream takes the scheme from the transport (plain TCP in the rig), not from the message
+          "h2 " ++ showBlock (formatH2Request { r with scheme := sHttp } true) ++ " " ++ showBytes body ++ " "
+            ++ showBlock (normalizeH2 trailers)
   else
     match b with
     | (_, m) :: (_, p) :: fs =>
@@ -68,9 +71,10 @@ def reqOp (cv sv : Nat) (authOk : Bool) (b : Block) (body : Bytes) (trailers : B
       else "h2 " ++ showBlock (formatH2Request r false) ++ " " ++ showBytes body ++ " -"
     | _ => "bad-op"
 
-def respOp (sv cv : Nat) (method : Bytes) (b : Block) (body : Bytes) (trailers : Block) : String :=
+def respOp (sv cv : Nat) (method : Bytes) (reqTrailers : Bool) (b : Block) (body : Bytes) (trailers : Block) : String :=
   if sv = 2 then
-    if !h2ValidResp b || !h2ClOk (method == sHead) b body.length || !(trailers.isEmpty || h2ValidTrailers trailers) then "reject"
+    -- hyper-h2 remembers the request method from the last HEADERS frame it sent on the stream: request trailers erase it
+    if !h2ValidResp b || !h2ClOk (method == sHead && !reqTrailers) b body.length || !(trailers.isEmpty || h2ValidTrailers trailers) then "reject"
     else match parseH2Response b with
       | none => "reject"
       | some (st, fs) =>
@@ -94,9 +98,9 @@ def stepLine (line : String) : String :=
     match cv.toNat?, sv.toNat?, parseBlock blk, hexOr body, parseBlock trl with
     | some cv, some sv, some b, some bd, some t => reqOp cv sv (ok == "1") b bd t
     | _, _, _, _, _ => "bad-op"
-  | ["resp", sv, cv, m, blk, body, trl] =>
+  | ["resp", sv, cv, m, rt, blk, body, trl] =>
     match sv.toNat?, cv.toNat?, hexOr m, parseBlock blk, hexOr body, parseBlock trl with
-    | some sv, some cv, some m, some b, some bd, some t => respOp sv cv m b bd t
+    | some sv, some cv, some m, some b, some bd, some t => respOp sv cv m (rt == "1") b bd t
     | _, _, _, _, _, _ => "bad-op"
   | ["refparse", h] =>
     match hexOr h with
